@@ -163,7 +163,10 @@ def rules(ck, P):
                 if n is gets[0]:
                     chain = [p for p in parents[-3:]]
                     oku = any(p.get("k") == "mcall" and p.get("name") in ("ok_or_else", "ok_or", "context", "with_context") for p in chain) and any(p.get("k") == "try" for p in chain)
-            key_ok = ir.place_str(gets[0]["a"][0]).endswith("node.name")
+            a0_ = ir.strip(gets[0]["a"][0])
+            while a0_ is not None and a0_.get("k") in ("ref", "mcall") and a0_.get("k") != "field":
+                a0_ = ir.strip(a0_.get("e") or a0_.get("recv"))
+            key_ok = a0_ is not None and a0_.get("k") == "field" and a0_.get("name") == "name" and "VPLNode" in ((ir.strip(a0_["e"]).get("t") or "") + (ir.strip(a0_["e"]).get("ta") or ""))
             oku = oku and key_ok
         bad = [n["name"] for n in ir.walk_nodes(fb["body"]) if n.get("k") == "mcall" and n.get("name") in ("unwrap", "expect", "unwrap_or", "unwrap_or_default", "unwrap_or_else")]
         ck.check(oku and not bad, "R-UNKNOWN-OP", fb["q"], "lookup of node.name in %s; a missing name becomes Err through ok_or_else + `?`" % reg,
@@ -208,7 +211,11 @@ def rules(ck, P):
             key = "%s.%s" % (fb["q"].split("::operations::")[-1].rsplit("::Args", 1)[0], nm)
             e = ir.strip(f["e"])
             if nm == "sources":
-                ck.check(ir.place_str(e).startswith("node.sources"), "R-REQ", key, "sources come from node.sources", "sources do not come from node.sources", ir.loc(fb))
+                e_ = ir.strip(e)
+                while e_ is not None and e_.get("k") == "mcall" and e_.get("name") in ("clone", "to_owned", "to_vec"):
+                    e_ = ir.strip(e_["recv"])
+                from_node = e_ is not None and e_.get("k") == "field" and e_.get("name") == "sources" and "VPLNode" in ((ir.strip(e_["e"]).get("t") or "") + (ir.strip(e_["e"]).get("ta") or ""))
+                ck.check(from_node, "R-REQ", key, "sources come from node.sources", "sources do not come from node.sources", ir.loc(fb))
                 continue
             has_try = e.get("k") == "try"
             call = ir.strip(e["e"]) if has_try else e
@@ -216,7 +223,7 @@ def rules(ck, P):
             lit = ir.const_eval_str(call["a"][0]) if call.get("k") == "mcall" and call.get("a") else None
             opt = ftypes.get(nm, "").startswith("std::option::Option<")
             want_req = not opt
-            ok = has_try and lit == nm and acc.startswith("get_property_") and (acc.endswith("_req") == want_req) and ir.place_str(call.get("recv", {})) == "node"
+            ok = has_try and lit == nm and acc.startswith("get_property_") and (acc.endswith("_req") == want_req) and "VPLNode" in ((ir.strip(call.get("recv", {})) or {}).get("t", "") + (ir.strip(call.get("recv", {})) or {}).get("ta", ""))
             ck.check(ok, "R-REQ", key, "field `%s` (%s) is read with %s(\"%s\")?" % (nm, "optional" if opt else "required", acc, lit),
                      "field `%s` (%s) is read with %s(%r)%s" % (nm, "optional" if opt else "required", acc, lit, "" if has_try else " without `?`"), ir.loc(fb))
     rq = [x for x in P.bodies if x["q"].endswith("vpl::vpl_node::VPLNode::required")]
